@@ -381,7 +381,9 @@ def norm(v):
 
 
 def loose_admits(rid):
-    return rid is None or isinstance(rid, (int, float, str))
+    """ids of the property's quantifier for 2.0/Loose: numbers, strings, null (a JSON boolean is
+    not a number)"""
+    return rid is None or (isinstance(rid, (int, float, str)) and not isinstance(rid, bool))
 
 
 def eval_roundtrip(mod, rt, loop):
